@@ -104,13 +104,13 @@ def draw_op(rng, name, fault_rate):
     if name == "edit_meta":
         return {"op": name, "i": i, "key": rng.choice(["site", "note", "edited"]), "value": rng.choice(["x", 7, [1, 2]])}
     if name == "save":
-        op = {"op": "save", "i": i, "path": "sim:/r/" + rng.choice(["a", "b", "c"]) + ".json"}
+        op = {"op": "save", "i": i, "path": "/simfs/r/" + rng.choice(["a", "b", "c"]) + ".json"}
         if rng.random() < fault_rate:
             op["fault"] = {"kind": rng.choice(["enospc", "eio_write", "crash_in_write", "short_write"]),
                            "frac": rng.choice([0.0, 0.05, 0.5, 0.95, 0.999])}
         return op
     if name == "load":
-        op = {"op": "load", "path": "sim:/r/" + rng.choice(["a", "b", "c"]) + ".json"}
+        op = {"op": "load", "path": "/simfs/r/" + rng.choice(["a", "b", "c"]) + ".json"}
         if rng.random() < fault_rate:
             op["fault"] = {"kind": "eio_read", "at": rng.choice([0, 1, 2])}
         return op
